@@ -61,6 +61,11 @@ def run(rep, prop):
         r = bfs.explore(uname, tmp, max_depth=maxd, collect=True)
         held += bfs.held_facades(uname, r['state_list'], rep.acc, quick=False)
     trans += held
+    # scale probes (deep chains, wide lists, a tree of > 1000 tasks, unusual id types): fixed inputs larger than the universes
+    from ..explore import probes
+    probes.run_all(rep.acc)
+    trans += rep.acc.counters['probe_calls']
+    per.append({'scale_probes': rep.acc.counters['probe_cases'], 'calls': rep.acc.counters['probe_calls']})
     c = rep.acc.counters
     rep.coverage.update({
         'states': states, 'transitions': trans, 'traces_validated_against_impl': trans,
